@@ -435,9 +435,12 @@ static void ProcessFile(char const* pSrcName, int Index) {
                 if (fwrite(Buffer, 1, Len, TargFile) != Len) {
                     ChkIO(TargName);
                 }
-                if (PartRun) {
-                    PartRun = PartRun->Next;
-                }
+            }
+
+            /* the part belongs to this record, whether or not it got written */
+
+            if (PartRun) {
+                PartRun = PartRun->Next;
             }
             SumLen += Len;
         }
